@@ -54,7 +54,7 @@ ExKinds(d) ==
     [] d = "rcs956" -> (InitKinds \ {"TT1CIU"}) \cup {"LTT2", "LDEP", "LDEPRX"}
     [] d = "acr122" -> InitKinds \ {"TT1", "TT1CIU"}
     [] d = "rcs380" -> (InitKinds \ {"TT1CIU", "DEPACT"}) \cup TargetKinds
-    [] d = "udp"    -> {"TT2", "TT3", "DEPA", "LTT3", "LDEP"}
+    [] d = "udp"    -> (InitKinds \ {"TT1CIU", "DEPACT"}) \cup {"LTT2", "LTT4", "LTT3", "LDEP"}
 \* every driver is asked for every operation: what it does not support must say so as documented
 Kinds(d) == ExKinds(d) \cup OpKinds
 
